@@ -518,7 +518,9 @@ pub fn knock_cases() -> Vec<AuthCase> {
 pub fn generic_cases() -> Vec<AuthCase> {
     let mut out = vec![];
     for v in 1..=11u8 {
-        for (ty, has_key) in [("m.room.message", false), ("m.room.topic", true), ("m.room.third_party_invite", true), ("m.room.redaction", false), ("org.example.custom", true)] {
+        for (ty, has_key) in [("m.room.message", false), ("m.room.topic", true), ("m.room.third_party_invite", true), ("m.room.redaction", false), ("org.example.custom", true),
+            // names that merely look like a specially handled type are ordinary events
+            ("member", true), ("m.room.m.room.member", true), ("m.room.members", true), ("M.ROOM.POWER_LEVELS", true), ("m.room.create.", true), ("m.room.join_rule", true), ("room.redaction", false)] {
             for sender_m in MEMBERSHIPS {
                 for source in ["events-entry", "default-field", "spec-default", "no-pl"] {
                     for rel in [-1i64, 0, 1] {
